@@ -38,6 +38,22 @@ CHECKS = {
    text="Round trip of generated values (strings incl. empty/number-like/code-like, integers and reals with many digits, booleans, arrays, maps, nested) through five entry paths (API assign, event payload, <param>, namelist, <donedata>) of a real Lua-datamodel session and back via evalAsData, compared modulo Lua value semantics; plus the protected system variables (assignment must raise error.execution and leave the value unchanged) via API and via <assign>.",
    note="Trusted: the equivalence predicate (numbers numerically, strings bytewise). Shapes the statement excludes (numeric keys, nil holes, empty containers) are not generated. Inline <data> content and <log> as exit path are not covered.",
    technique="round-trip property-based testing (Hypothesis) through a live interpreter session"),
+ 'C04': dict(category='translation_validation', design_ref='DESIGN.md §4 C04',
+   text="Translation validation per generated program: each generated chart is emitted by ChartToC, compiled with a scaffold under clang ASan+UBSan using exactly the emitted sizing macros, run on a generated event history, and its trace (events dequeued, log values, raise/send/assign calls, configuration after every uscxml_step, final data) compared with the interpreter's for the same document; plus an arithmetic check of the emitted sizing macros against the emitted table sizes.",
+   note="Trusted: the scaffold callbacks (written from the emitted header's contract) and the expression table compiled from the same abstract chart. Differences explained exactly by the transpilers' conflict relation are attributed to known finding F-C04-1. No invoke / nested machines.",
+   technique="differential property-based testing of compiled transpiler output vs interpreter (Hypothesis), sanitizers"),
+ 'C05': dict(category='translation_validation', design_ref='DESIGN.md §4 C05',
+   text="For every enumerated small state tree (all shapes and kind assignments up to the bound, sampled decorations) and Hypothesis-generated larger trees, every structural table the transpiler annotates (document/post-fix order, parent, children, ancestors, completion incl. history completion, targets, exit sets, conflicts) is recomputed from the generator's AST by the Recommendation's definitions and compared bit by bit; the tables embedded in the emitted C text (hex initialisers and bit-string comments) must equal the annotations.",
+   note="Trusted: the AST-side definitions (40 lines). Pseudo-state bits inside history completions and rows of initial/history transitions are masked (no behavioural meaning). Promela/VHDL embeddings are exercised behaviourally by C06/C18. Nested-history class excluded (F-C05-1).",
+   technique="bounded exhaustive enumeration + property-based testing against recomputed reference tables"),
+ 'C18': dict(category='translation_validation', design_ref='DESIGN.md §4 C18',
+   text="The emitted VHDL's concurrent signal assignments are parsed into expression DAGs and evaluated (three-valued fixpoint where the network is structurally cyclic) for every legal configuration x every event and the spontaneous step x all condition valuations of every enumerated small chart (all charts <= 4 states, <= 2 transitions) and of generated larger charts; the next configuration must equal the reference model's microstep under the transpilers' conflict relation.",
+   note="Trusted: the equation parser/evaluator, VHDL and/or/not semantics, the reference model's single microstep. Clocked processes are not simulated; root signal state_next_0 not compared; event signal together with spontaneous_en=1 not evaluated. Fragment: no history/datamodel/<initial> element/deep initial.",
+   technique="exhaustive situation enumeration per generated chart against a reference model (equation-level translation validation)"),
+ 'C20': dict(category='exploration', design_ref='DESIGN.md §4 C20',
+   text="Metamorphic determinism check: every generated document (up to 4 nested invoked machines with ids) is transpiled by all three back-ends in three fresh processes of the un-sanitized build (ASLR on with cold cache, ASLR on with warm cache, ASLR off + malloc perturbation + padded environment) and interpreted twice; outputs must be byte-identical, traces identical.",
+   note="Trusted: process-level variation actually moves pointer-derived artefacts (it did for the defect found). A particular layout cannot be forced. USCXML_CURRENT_MACHINE_INDEX is treated as input (fresh process per transformation).",
+   technique="metamorphic property-based testing across process instances (Hypothesis)"),
 }
 NOT_YET = "check not implemented yet in this session (see DESIGN.md §11 for the plan)"
 
